@@ -43,6 +43,24 @@ type Scenario struct {
 	InjectBudget int
 	ResultKey    func(r interface{}) string
 	Seed         int64
+	// Eager actors (e.g. the instances of a cheating party, whose own schedule is not what is being
+	// judged) take every message addressed to them at once, in canonical order: while such a message
+	// is pending, its delivery is the only enabled event.  This restricts the behaviours of those
+	// actors, never those of the others, whose delivery orders stay fully enumerated.
+	Eager func(a Actor) bool
+}
+
+// eagerOnly reduces a sorted event list to the first delivery addressed to an eager actor, if there is one.
+func (sc *Scenario) eagerOnly(ev []string, toOf func(id string) string) []string {
+	if sc.Eager == nil {
+		return ev
+	}
+	for _, e := range ev {
+		if e[0] == 'D' && sc.Eager(sc.actor(toOf(e[2:]))) {
+			return []string{e}
+		}
+	}
+	return ev
 }
 
 // View is what AtDeliver may look at: everything each actor has emitted so far.
@@ -160,7 +178,14 @@ func (w *World) Events() []string {
 		}
 	}
 	sort.Strings(ev)
-	return ev
+	return w.sc.eagerOnly(ev, func(id string) string {
+		for _, p := range w.Pending {
+			if p.id == id {
+				return p.to
+			}
+		}
+		return ""
+	})
 }
 
 // Apply executes one event; false = the event is not enabled here (replay divergence).
